@@ -37,7 +37,7 @@ type mspec struct {
 type env struct {
 	lsets  []labels.Labels
 	byKey  map[string]int
-	q      storage.Querier
+	mk     func(mint, maxt int64) (storage.Querier, error)
 	closer []func()
 }
 
@@ -46,7 +46,7 @@ func (e *env) close() {
 		e.closer[i]()
 	}
 	e.closer = nil
-	e.q = nil
+	e.mk = nil
 }
 
 func fatal(err error) {
@@ -73,7 +73,7 @@ func must(err error) {
 
 // load builds the real storage object and a querier over it. A failure of the storage code while
 // loading (e.g. the block writer rejecting the series) is returned, not fatal: it is an output class.
-func load(kind string, lsets []labels.Labels) (e *env, err error) {
+func load(kind string, lsets []labels.Labels, times []int64) (e *env, err error) {
 	defer func() {
 		if r := recover(); r != nil {
 			le, ok := r.(loadErr)
@@ -104,20 +104,19 @@ func load(kind string, lsets []labels.Labels) (e *env, err error) {
 		e.closer = append(e.closer, func() { head.Close() })
 		app := head.Appender(ctx)
 		for i, l := range lsets {
-			_, err := app.Append(0, l, 1000+int64(i%3), float64(i))
+			_, err := app.Append(0, l, times[i], float64(i))
 			must(err)
 		}
 		must(app.Commit())
-		q, err := tsdb.NewBlockQuerier(tsdb.NewRangeHead(head, math.MinInt64, math.MaxInt64), math.MinInt64, math.MaxInt64)
-		must(err)
-		e.q = q
-		e.closer = append(e.closer, func() { q.Close() })
+		e.mk = func(mint, maxt int64) (storage.Querier, error) {
+			return tsdb.NewBlockQuerier(tsdb.NewRangeHead(head, mint, maxt), mint, maxt)
+		}
 	case "block":
 		w, err := tsdb.NewBlockWriter(logger, dir, 1000*3600*2)
 		must(err)
 		app := w.Appender(ctx)
 		for i, l := range lsets {
-			_, err := app.Append(0, l, 1000+int64(i%3), float64(i))
+			_, err := app.Append(0, l, times[i], float64(i))
 			must(err)
 		}
 		must(app.Commit())
@@ -127,10 +126,7 @@ func load(kind string, lsets []labels.Labels) (e *env, err error) {
 		b, err := tsdb.OpenBlock(logger, filepath.Join(dir, id.String()), nil, nil)
 		must(err)
 		e.closer = append(e.closer, func() { b.Close() })
-		q, err := tsdb.NewBlockQuerier(b, math.MinInt64, math.MaxInt64)
-		must(err)
-		e.q = q
-		e.closer = append(e.closer, func() { q.Close() })
+		e.mk = func(mint, maxt int64) (storage.Querier, error) { return tsdb.NewBlockQuerier(b, mint, maxt) }
 	default:
 		must(fmt.Errorf("unknown kind %q", kind))
 	}
@@ -190,13 +186,13 @@ func errClass(err error) string {
 	return "err other"
 }
 
-func doSelect(c *h.Ctx, e *env, sorted bool, ms []mspec) {
+func doSelect(c *h.Ctx, e *env, sorted bool, mint, maxt int64, ms []mspec) {
 	matchers, toks, err := build(ms)
 	srt := "0"
 	if sorted {
 		srt = "1"
 	}
-	op := strings.TrimSpace("select " + srt + " " + strings.Join(toks, " "))
+	op := strings.TrimSpace(fmt.Sprintf("select %s %d %d %s", srt, mint, maxt, strings.Join(toks, " ")))
 	if err != nil {
 		c.Op(op, "bad-regex")
 		return
@@ -204,7 +200,13 @@ func doSelect(c *h.Ctx, e *env, sorted bool, ms []mspec) {
 	var out string
 	if p, v := h.Try(func() {
 		cp := append([]*labels.Matcher(nil), matchers...) // Select re-sorts the slice in place
-		ss := e.q.Select(context.Background(), sorted, nil, cp...)
+		q, err := e.mk(mint, maxt)
+		if err != nil {
+			out = "err querier"
+			return
+		}
+		defer q.Close()
+		ss := q.Select(context.Background(), sorted, nil, cp...)
 		var idx []string
 		for ss.Next() {
 			l := ss.At().Labels()
@@ -239,9 +241,9 @@ func bucket(n int) string {
 	return ">10"
 }
 
-func doLvals(c *h.Ctx, e *env, name string, limit int, ms []mspec) {
+func doLvals(c *h.Ctx, e *env, name string, limit int, mint, maxt int64, ms []mspec) {
 	matchers, toks, err := build(ms)
-	op := strings.TrimSpace(fmt.Sprintf("lvals %s %d %s", h.HexS(name), limit, strings.Join(toks, " ")))
+	op := strings.TrimSpace(fmt.Sprintf("lvals %s %d %d %d %s", h.HexS(name), limit, mint, maxt, strings.Join(toks, " ")))
 	if err != nil {
 		c.Op(op, "bad-regex")
 		return
@@ -253,7 +255,13 @@ func doLvals(c *h.Ctx, e *env, name string, limit int, ms []mspec) {
 		if limit > 0 {
 			hints = &storage.LabelHints{Limit: limit}
 		}
-		vals, _, err := e.q.LabelValues(context.Background(), name, hints, cp...)
+		q, err := e.mk(mint, maxt)
+		if err != nil {
+			out = "err querier"
+			return
+		}
+		defer q.Close()
+		vals, _, err := q.LabelValues(context.Background(), name, hints, cp...)
 		if err != nil {
 			out = errClass(err)
 			return
@@ -266,9 +274,9 @@ func doLvals(c *h.Ctx, e *env, name string, limit int, ms []mspec) {
 	c.Op(op, out)
 }
 
-func doLnames(c *h.Ctx, e *env, limit int, ms []mspec) {
+func doLnames(c *h.Ctx, e *env, limit int, mint, maxt int64, ms []mspec) {
 	matchers, toks, err := build(ms)
-	op := strings.TrimSpace(fmt.Sprintf("lnames %d %s", limit, strings.Join(toks, " ")))
+	op := strings.TrimSpace(fmt.Sprintf("lnames %d %d %d %s", limit, mint, maxt, strings.Join(toks, " ")))
 	if err != nil {
 		c.Op(op, "bad-regex")
 		return
@@ -280,7 +288,13 @@ func doLnames(c *h.Ctx, e *env, limit int, ms []mspec) {
 		if limit > 0 {
 			hints = &storage.LabelHints{Limit: limit}
 		}
-		vals, _, err := e.q.LabelNames(context.Background(), hints, cp...)
+		q, err := e.mk(mint, maxt)
+		if err != nil {
+			out = "err querier"
+			return
+		}
+		defer q.Close()
+		vals, _, err := q.LabelNames(context.Background(), hints, cp...)
 		if err != nil {
 			out = errClass(err)
 			return
@@ -420,13 +434,31 @@ func genMatchers(r *h.Rng, min int) []mspec {
 	return ms
 }
 
+var ranges = [][2]int64{{1000, 1000}, {1000, 2000}, {2000, 3000}, {3000, 9000}, {1001, 1999}, {4000, 5000}, {0, 999}, {2000, 2000}, {math.MinInt64, 1500}, {2500, math.MaxInt64}}
+
+// genRange: mostly the full range, otherwise a window that cuts the three sample times 1000/2000/3000.
+func genRange(c *h.Ctx, r *h.Rng) (int64, int64) {
+	if r.Chance(55) {
+		c.Count("range:full")
+		return math.MinInt64, math.MaxInt64
+	}
+	c.Count("range:window")
+	x := ranges[r.Intn(len(ranges))]
+	return x[0], x[1]
+}
+
 func lsetTok(l labels.Labels) string {
 	var parts []string
 	l.Range(func(x labels.Label) { parts = append(parts, x.Name+"="+x.Value) })
 	return strings.Join(parts, ",")
 }
 
-func parseLset(tok string) labels.Labels {
+func parseLset(tok string) (labels.Labels, int64) {
+	t := int64(1000)
+	if i := strings.IndexByte(tok, '@'); i >= 0 {
+		t, _ = strconv.ParseInt(tok[i+1:], 10, 64)
+		tok = tok[:i]
+	}
 	var kv []string
 	for _, p := range strings.Split(tok, ",") {
 		x := strings.SplitN(p, "=", 2)
@@ -435,7 +467,7 @@ func parseLset(tok string) labels.Labels {
 		}
 		kv = append(kv, x[0], x[1])
 	}
-	return labels.FromStrings(kv...)
+	return labels.FromStrings(kv...), t
 }
 
 func parseMspecs(toks []string) []mspec {
@@ -488,11 +520,14 @@ func replayCase(c *h.Ctx, lines []string) {
 				e.close()
 			}
 			var lsets []labels.Labels
+			var times []int64
 			for _, t := range f[2:] {
-				lsets = append(lsets, parseLset(t))
+				l, ts := parseLset(t)
+				lsets = append(lsets, l)
+				times = append(times, ts)
 			}
 			var err error
-			e, err = load(f[1], lsets)
+			e, err = load(f[1], lsets, times)
 			if err != nil {
 				c.Op(op, "err load")
 				continue
@@ -500,21 +535,39 @@ func replayCase(c *h.Ctx, lines []string) {
 			c.Op(op, fmt.Sprintf("ok %d", len(lsets)))
 		case "select":
 			if e == nil {
-				e, _ = load("head", nil)
+				e, _ = load("head", nil, nil)
 			}
-			doSelect(c, e, f[1] == "1", parseMspecs(f[2:]))
+			if len(f) < 4 {
+				c.Op(op, "bad-op")
+				continue
+			}
+			mint, _ := strconv.ParseInt(f[2], 10, 64)
+			maxt, _ := strconv.ParseInt(f[3], 10, 64)
+			doSelect(c, e, f[1] == "1", mint, maxt, parseMspecs(f[4:]))
 		case "lvals":
 			if e == nil {
-				e, _ = load("head", nil)
+				e, _ = load("head", nil, nil)
+			}
+			if len(f) < 5 {
+				c.Op(op, "bad-op")
+				continue
 			}
 			lim, _ := strconv.Atoi(f[2])
-			doLvals(c, e, string(h.UnHex(f[1])), lim, parseMspecs(f[3:]))
+			mint, _ := strconv.ParseInt(f[3], 10, 64)
+			maxt, _ := strconv.ParseInt(f[4], 10, 64)
+			doLvals(c, e, string(h.UnHex(f[1])), lim, mint, maxt, parseMspecs(f[5:]))
 		case "lnames":
 			if e == nil {
-				e, _ = load("head", nil)
+				e, _ = load("head", nil, nil)
+			}
+			if len(f) < 4 {
+				c.Op(op, "bad-op")
+				continue
 			}
 			lim, _ := strconv.Atoi(f[1])
-			doLnames(c, e, lim, parseMspecs(f[2:]))
+			mint, _ := strconv.ParseInt(f[2], 10, 64)
+			maxt, _ := strconv.ParseInt(f[3], 10, 64)
+			doLnames(c, e, lim, mint, maxt, parseMspecs(f[4:]))
 		default:
 			c.Op(op, "bad-op")
 		}
@@ -545,10 +598,16 @@ func main() {
 		c.Case(fmt.Sprintf("%s%d", kind[:1], i))
 		lsets := genSeries(r)
 		toks := make([]string, len(lsets))
+		times := make([]int64, len(lsets))
+		allSame := r.Chance(30)
 		for k, l := range lsets {
-			toks[k] = lsetTok(l)
+			times[k] = 1000 * int64(1+r.Intn(3))
+			if allSame {
+				times[k] = 2000
+			}
+			toks[k] = fmt.Sprintf("%s@%d", lsetTok(l), times[k])
 		}
-		e, err := load(kind, lsets)
+		e, err := load(kind, lsets, times)
 		if err != nil {
 			c.Op("load "+kind+" "+strings.Join(toks, " "), "err load")
 			c.Count("load:error")
@@ -564,7 +623,8 @@ func main() {
 				ms := genMatchers(r, 1)
 				countMatchers(c, ms)
 				c.Count("op:select")
-				doSelect(c, e, r.Chance(70), ms)
+				mint, maxt := genRange(c, r)
+				doSelect(c, e, r.Chance(70), mint, maxt, ms)
 			case x < 8:
 				ms := genMatchers(r, 0)
 				if r.Chance(15) {
@@ -583,7 +643,8 @@ func main() {
 				if lim > 0 {
 					c.Count("op:lvals:limited")
 				}
-				doLvals(c, e, nm, lim, ms)
+				mint, maxt := genRange(c, r)
+				doLvals(c, e, nm, lim, mint, maxt, ms)
 			default:
 				ms := genMatchers(r, 0)
 				if r.Chance(15) {
@@ -598,7 +659,8 @@ func main() {
 				if lim > 0 {
 					c.Count("op:lnames:limited")
 				}
-				doLnames(c, e, lim, ms)
+				mint, maxt := genRange(c, r)
+				doLnames(c, e, lim, mint, maxt, ms)
 			}
 		}
 		sort.Strings(key)
